@@ -167,6 +167,10 @@ type Session struct {
 	CommitN int // number of commit attempts (for disk marks)
 	History []SpecState // committed spec states, History[0] = fresh file
 	resized bool // max size was changed on a reopen
+	extentLimit uint64 // C14: no write beyond this after a shrink (0 = unchecked)
+	LastCommit string // result of the last Commit
+	FaultKind string // kind of I/O call a fault plan targets (fault check)
+	finalSyncFailAt int // log length when a commit last failed only in its final sync
 }
 
 // Current is the session receiving trace points (one per process at a time).
@@ -532,7 +536,7 @@ func (s *Session) Alloc(n int) (ids []uint64, res string) {
 				s.mark("alloc-from-freelist")
 			}
 		}
-		if s.Cfg.MaxPages > 0 {
+		if s.Cfg.MaxPages > 0 && !s.resized {
 			for _, id := range ids {
 				if id >= s.Cfg.MaxPages && before.MaxPages == s.Cfg.MaxPages {
 					s.fail("C11", "alloc-beyond-max", "alloc returned page %d beyond max pages %d", id, s.Cfg.MaxPages)
@@ -808,6 +812,7 @@ func (s *Session) Commit() string {
 	rec := s.drainHook()
 	s.noteFlushMarks(rec)
 	s.emit("commit [%s] => %s", rec, res)
+	s.LastCommit = res
 	if res == "ok" {
 		s.applyCommit()
 		s.History = append(s.History, s.specState(n))
@@ -883,22 +888,32 @@ func (s *Session) ReadCheck(prop string) {
 	fmt.Fprintf(&sb, "root=%d", tx.Root())
 	for _, id := range s.LiveIDs() {
 		want := s.Committed[id]
+		if want.ID == ^uint64(0) {
+			continue // allocated but never written: no defined content (may even lie beyond the file's end)
+		}
 		var got Content
 		var parsed bool
+		var errText string
 		r := s.guard("ro-read", func() error {
 			p, err := tx.Page(txfile.PageID(id))
 			if err != nil {
+				errText = err.Error()
 				return err
 			}
 			b, err := p.Bytes()
 			if err != nil {
+				errText = err.Error()
 				return err
 			}
 			got, parsed = Parse(b)
 			return nil
 		})
 		if r != "ok" {
-			s.fail(prop, "ro-read-err", "reading live page %d failed: %s", id, r)
+			kind := "ro-read-err"
+			if (s.FaultKind == "mmap" || s.FaultKind == "size") && strings.Contains(errText, "txfile/page-bytes") {
+				kind = "ro-read-unmapped-after-failed-remap"
+			}
+			s.fail(prop, kind, "reading live page %d failed: %s (%s)", id, r, strings.ReplaceAll(errText, "\n", " | "))
 			fmt.Fprintf(&sb, " %d=%s", id, r)
 			continue
 		}
